@@ -25,7 +25,7 @@ import numpy as np
 from hypothesis import strategies as st
 
 from models import atoms_model as M
-from vlib import Enum, Outcome, Sub
+from vlib import Enum, Outcome, Sub, findings
 
 PROPERTY = "C01"
 RULE = (
@@ -475,6 +475,12 @@ def reduce_idx(raw, length, allow_below):
     raise AssertionError(raw)
 
 
+F1 = "C01-F1"
+# context of the index that is being built (set by the interpreter): atom count of the container,
+# whether it has a BondList, and the outcome that counts narrowed cases
+_IDX_CTX = {"n": 0, "bonds": False, "o": None}
+
+
 def np_index(d):
     tag = d[0]
     if tag == "int":
@@ -492,6 +498,12 @@ def np_index(d):
         if dt.startswith("uint") and any(v < 0 for v in d[1]):
             dt = "int64"
         if dt == "int8" and any(abs(v) > 100 for v in d[1]):
+            dt = "int64"
+        if findings.is_open(F1) and not _IDX_CTX.get("no_exclude") and _IDX_CTX["bonds"] and _IDX_CTX["n"] > np.iinfo(dt).max:
+            # open finding C01-F1: BondList cannot be indexed with an index array whose integer dtype
+            # cannot hold the atom count (OverflowError) - use a wide dtype instead and count it
+            if _IDX_CTX["o"] is not None:
+                _IDX_CTX["o"].exclude(F1)
             dt = "int64"
         return np.array(d[1], dtype=dt)
     if tag == "ell":
@@ -591,6 +603,7 @@ class Interp:
         """Returns (model_call, real_call, labels)."""
         mc, real = s.model, s.real
         has_bonds = mc.bonds is not None
+        _IDX_CTX.update(n=mc.n, bonds=has_bonds, o=self.o)
         if mc.kind == "array":
             raw = raw0 if form == "1d" else raw1
             d, lab = reduce_idx(raw, mc.n, not has_bonds)
@@ -1178,7 +1191,12 @@ def check_no_shared_memory(o, a, b, ctx):
 def run_history(case):
     o = Outcome()
     it = Interp(o)
-    it.run(case["ops"])
+    # reproducers of open findings carry "no_exclude": the narrowing of their input class is off
+    _IDX_CTX["no_exclude"] = bool(case.get("no_exclude"))
+    try:
+        it.run(case["ops"])
+    finally:
+        _IDX_CTX["no_exclude"] = False
     o.mark_nontrivial(it.saw_fancy_index and it.saw_structural)
     if it.saw_fancy_index:
         o.label("has_fancy_or_negative_index")
@@ -1755,4 +1773,8 @@ ENUMS = [
     )
 ]
 
-FINDINGS = {}
+def _f1(sub, case, clause, message):
+    return clause == "unexpected_exception" and "OverflowError" in message and "_to_positive_index_array" in message
+
+
+FINDINGS = {"bondlist_index_array_dtype_narrower_than_atom_count": _f1}
